@@ -13,14 +13,15 @@ import (
 )
 
 type Engine struct {
-	prog       *ssa.Program
-	u          *Universe
-	cs         *Contracts
-	fset       *token.FileSet
-	funcs      map[string]*ssa.Function
-	pkgs       map[string]*ssa.Package
-	inlineMax  int
-	docSamples []string
+	prog        *ssa.Program
+	u           *Universe
+	cs          *Contracts
+	fset        *token.FileSet
+	funcs       map[string]*ssa.Function
+	pkgs        map[string]*ssa.Package
+	inlineMax   int
+	docSamples  []string
+	mapSortMemo map[string]string
 }
 
 // funcKey gives the contract key of an SSA function.
@@ -765,6 +766,7 @@ func (f *Frame) execInstr(ins ssa.Instruction, reach string, h *Heap) string {
 		ref := f.newRef(h)
 		mt := i.Type().Underlying().(*types.Map)
 		dom, _ := f.mapComps(mt)
+		f.mapCur(mt, h)
 		vc.setComp(h, dom, "MapDom", app("store", vc.cur(h, dom, "MapDom"), ref, f.emptyDom(mt)))
 		f.env[i] = Val{S: "Int", E: ref, T: i.Type()}
 	case *ssa.MapUpdate:
@@ -970,6 +972,12 @@ func (f *Frame) typeAssert(i *ssa.TypeAssert, x Val, reach string, h *Heap) Val 
 	u.registerBoxed(at)
 	is := app("(_ is "+u.boxName(at)+")", x.E)
 	v := f.vc.define(f.prefix+"ta", u.sortOf(at), ite(is, app(u.unboxName(at), x.E), u.zeroOf(at)))
+	if pt, ok := at.Underlying().(*types.Pointer); ok && f.en.astWfAssumed(i.X.Type(), pt) {
+		// A-ASTWF: syntax-tree interfaces never hold typed-nil pointers (established by the
+		// parser's postconditions, C08; assumed by every consumer of the tree)
+		f.vc.assume(implies(and(reach, is), not(eq(pref(v), "0"))))
+		f.vc.assumed = append(f.vc.assumed, "A-ASTWF: an interface value of the syntax tree never holds a typed-nil pointer (assumed where "+f.fn.Name()+" unboxes "+typeKey(at)+")")
+	}
 	if i.CommaOk {
 		return Val{S: "Tuple", T: i.Type(), Tuple: []Val{f.en.mkVal(at, v), {S: "Bool", E: is, T: types.Typ[types.Bool]}}}
 	}
@@ -1104,4 +1112,13 @@ func goMod(x, y string) string {
 		return app("-", x, app("*", y, goDiv(x, y)))
 	}
 	return app("gomod", x, y)
+}
+
+// astWfAssumed: the asserted pointer type is a syntax-tree node unboxed from an interface.
+func (en *Engine) astWfAssumed(from types.Type, pt *types.Pointer) bool {
+	n, ok := pt.Elem().(*types.Named)
+	if !ok || n.Obj().Pkg() == nil {
+		return false
+	}
+	return n.Obj().Pkg().Name() == "ast" && en.u.repoPkgs[n.Obj().Pkg().Path()]
 }
